@@ -148,7 +148,15 @@ func (o *CandidateNode) MarshalJSON() ([]byte, error) {
 		log.Debugf("MarshalJSON MappingNode")
 		buf.WriteByte('{')
 		for i := 0; i < len(o.Content); i += 2 {
-			if err := enc.Encode(o.Content[i].Value); err != nil {
+			key := o.Content[i]
+			for key.Kind == AliasNode && key.Alias != nil {
+				key = key.Alias
+			}
+			if key.Kind != ScalarNode {
+				// `? [a, b] : 1`: JSON object keys are strings
+				return nil, fmt.Errorf("cannot encode a %v as the key of a JSON object", key.Tag)
+			}
+			if err := enc.Encode(key.Value); err != nil {
 				return nil, err
 			}
 			buf.WriteByte(':')
